@@ -578,14 +578,18 @@ namespace Pistache::Tcp
         while (this->notifier.tryRead())
             ;
 
+        // The request is taken out first: as soon as it is settled its owner may ask again,
+        // which writes loadRequest_ from the owner's thread
+        auto request = std::move(loadRequest_);
+        loadRequest_.clear();
+
         rusage now;
 
         auto res = getrusage(RUSAGE_THREAD, &now);
         if (res == -1)
-            loadRequest_.reject(std::runtime_error("Could not compute usage"));
-
-        loadRequest_.resolve(now);
-        loadRequest_.clear();
+            request.reject(std::runtime_error("Could not compute usage"));
+        else
+            request.resolve(now);
     }
 
     void Transport::handleTimer(TimerEntry entry)
